@@ -257,6 +257,10 @@ fn fields_of(s: &Scheme) -> FieldList {
 const NAME_PIECES: &[&str] = &[
     "a", "b", "http", "host", "http.host", "ip.src", "x_1", "UPPER", "héllo", "wörld.ü", "q\"x", "back\\slash", "nl\nname", "\u{1}ctl",
     "tab\t", "/slash", "€", "\u{1F600}", "sp ace", "0", "$lists", "type", "optional",
+    // names the engine itself knows in some other role: exported function definitions, operators and keywords of the
+    // filter language, words of its own JSON forms (a field may be called anything)
+    "concat", "any", "all", "lower", "len", "in", "not", "and", "or", "xor", "matches", "contains", "wildcard", "strict", "eq", "ne",
+    "true", "false", "Array", "Map", "Bytes", "Int", "Ip", "Bool", "fields", "functions", "lists", "name", "data",
 ];
 
 fn gen_name() -> String {
